@@ -8,7 +8,7 @@
    NOT proved here (notes/C19.md, "Not proved (tested only)"): that [registered]/[enabled] of the TightVNC
    gate correspond to rfbRegisterTightVNCFileTransferExtension / the extension list (a bare boolean in the
    model); the default permitFileTransfer = FALSE (a constant checked by the harness only); anything about the
-   TightVNC download thread and data transfer; the TightVNC root being non-empty (false: F19e below); file-system level confinement
+   TightVNC download thread and data transfer; file-system level confinement
    (symbolic links) for either protocol. *)
 From Coq Require Import ZArith List Bool.
 From LV Require Import Gen.Consts_C19 Session.FileXferDefs Session.FileXferProofs Session.FileXferHoare
@@ -214,7 +214,7 @@ Proof. exact tight_dead_is_silent. Qed.
    stat/opendir/open/creat/utime/unlink/mkdir - incl. the unlink of the close hook and the per-entry stat of a
    listing - is root ++ "/" ++ rel with rel never above the root, no path buffer overflows, no upload descriptor is
    lost.  CAVEAT (audit item 2): for root = "" [op_ok]/[below_root] hold for every absolute path without ".."
-   component - the theorem then confines nothing; and the extension does run with the empty root (F19e below). *)
+   component - the theorem then confines nothing; and before 2a9083d the extension did run with the empty root without being told to (F19e below); now only after an explicit "-ftproot /". *)
 Theorem C19_tight_every_entry_confined : forall root ms st,
   name_ok root st -> Forall (op_ok root) (tight_run v_tight_tree root st ms).
 Proof. exact tight_every_entry_confined. Qed.
@@ -232,20 +232,23 @@ Theorem C19_tight_upload_fd_lost_prefix_refuted : exists root ms,
   In TLostFd (tight_run v_tight_pre45 root tstate0 ms).
 Proof. exact tight_upload_fd_lost_refuted. Qed.            (* F19f: second upload request loses the first descriptor *)
 
-(* F19e: "transfer switched on implies a non-empty root" is false (no usable passwd home, no -ftproot) *)
-Theorem C19_tight_enabled_implies_root_refuted : exists env args,
-  t_enabled (run_args env tinit0 args) = true /\ t_root (run_args env tinit0 args) = [].
-Proof. exact tight_enabled_implies_root_refuted. Qed.
-
-(* ... and holds for the flow with notes/fix_C19_6.diff (IsFileTransferEnabled() = flag && a root directory was accepted;
-   [t_effective true]): after any command line, transfer is on only with a root that is the (slash-stripped) name of an
-   openable directory - the user's home or a -ftproot argument; an explicit "-ftproot /" keeps working *)
-Theorem C19_tight_enabled_implies_root_fixed : forall env args,
+(* C19_tight_enabled_implies_root.  True for the tree since fix commit 2a9083d (IsFileTransferEnabled() = the switch &&
+   a root directory was accepted by SetFtpRoot since the wipe in InitFileTransfer; [t_effective true]): after any command
+   line, transfer is on only with a root that is the (slash-stripped) name of an openable directory - the user's home or
+   a -ftproot argument; an explicit "-ftproot /" keeps working (its root string is "", chosen by the operator) *)
+Theorem C19_tight_enabled_implies_root : forall env args,
   t_effective true (run_args env tinit0 args) = true ->
   exists p, dir_ok env p = true /\ 0 < Zlength p /\ t_root (run_args env tinit0 args) = strip_slash p.
 Proof. exact tight_enabled_implies_root_fixed. Qed.
 
-(* -disablefiletransfer is final in both flows (fx = false: the tree, fx = true: with fix_C19_6) *)
+(* regression witness (F19e) for the flow before that commit ([t_effective false]: the switch alone): without a usable
+   passwd home and without -ftproot transfer was on with the empty root - the whole file system; the tree has it off *)
+Theorem C19_tight_enabled_implies_root_before_fix_refuted : exists env args,
+  t_effective false (run_args env tinit0 args) = true /\ t_root (run_args env tinit0 args) = [] /\
+  t_effective true (run_args env tinit0 args) = false.
+Proof. exact tight_enabled_implies_root_before_fix_refuted. Qed.
+
+(* -disablefiletransfer is final in both flows (fx = true: the tree, fx = false: before 2a9083d) *)
 Theorem C19_tight_effective_disable_is_final : forall fx env st rest,
   t_effective fx (run_args env st (s_disable :: rest)) = false.
 Proof. exact tight_effective_disable_is_final. Qed.
